@@ -1,6 +1,9 @@
 (* Props/C17.v — resetting a story is equivalent to constructing it afresh. *)
 From Ink.Engine Require Import Api Tie.
 From Ink.Shell Require Import ResetProofs.
+From Ink.Gen Require Import SaveGen.
+From Ink.Engine Require Import Save.
+From Ink.Shell Require Import HostFrame HostFrameLoad.
 
 Theorem reset_ignores_state : forall (I : iface) (seed : Z) (w : world) (s' : sstate),
   w_async w = false ->
@@ -34,3 +37,25 @@ Check story_new_is_init : forall (I : iface) (st : story) (seed : Z) (fuel : N),
   (let (o, w') := reset_globals I sw_now (world_init st seed fuel) in
    match o with OOk _ => (OOk tt, w') | OErr k e => (OErr k e, w') | OPanic s => (OPanic s, w') end).
 Print Assumptions story_new_is_init.
+
+(* ---------------- the host's registrations stay in place ---------------- *)
+(* observers, external bindings, the error handler, the fallbacks flag and the program are changed
+   by no story operation (continue in all forms, choose, jump, evaluate, set a variable, switch /
+   remove flows, RESET) and by no load, however the call ends — for the whole engine model *)
+Theorem registrations_survive_story_operations :
+  forall (I : iface) (sw : switches) (ops : list story_op) (w : world),
+    host_regs (run_story_ops I sw ops w) = host_regs w.
+Proof. exact HostFrame.registrations_survive. Qed.
+Check registrations_survive_story_operations :
+  forall (I : iface) (sw : switches) (ops : list story_op) (w : world),
+    host_regs (run_story_ops I sw ops w) = host_regs w.
+Print Assumptions registrations_survive_story_operations.
+
+Theorem registrations_survive_load :
+  forall (sp : ssite -> bool) (ssw : save_switches) (w : world) (j : json),
+    host_regs (snd (load_state sp ssw w j)) = host_regs w.
+Proof. exact HostFrameLoad.load_keeps_registrations. Qed.
+Check registrations_survive_load :
+  forall (sp : ssite -> bool) (ssw : save_switches) (w : world) (j : json),
+    host_regs (snd (load_state sp ssw w j)) = host_regs w.
+Print Assumptions registrations_survive_load.
